@@ -9,7 +9,8 @@ package main
 // entry without a tag; chosencases [""]) and `~` inside a token is a space.  `junk` = layout of the file (0..3, see
 // harness/c14cell: headers, blank lines, CRLF, missing final newline, pretty-printed multi-line JSON objects, all
 // objects on one line, indented array).  `src=uris`: uri entries given inline in the config (`uris:`) instead of a
-// file.  `via=yaml`: the providers are built by the plugin registry from a config map (type/file/uris/limit/passes/
+// file (round 3: also with the other formats and with no entries — NewProvider must reject / accept it alike in both
+// modes; `src=both`: a file AND uris).  `via=yaml`: the providers are built by the plugin registry from a config map (type/file/uris/limit/passes/
 // chosencases/preload keys) as when pandora reads a config file; otherwise by http.NewProvider.
 // `cap` = the harness cancels the context when `cap` ammo have been acquired: greater than the number of ammo a
 // bounded cell delivers (never reached then), or smaller (the run is cancelled in the middle of a pass).
@@ -33,8 +34,10 @@ package main
 // model); `big=i:size[,j:size2]` = entry i is `size` bytes big (uripost, http/json: its body; raw: its request — sizes around the
 // 1 MiB chunk of decoders.readSized).  The consumer treats every delivered request like a gun (sets scheme, target,
 // Host if empty, Set/Add on its headers, reads its body) AFTER looking at it: a request must be the consumer's own.
-// Before every cell side the child runs a PRELUDE provider of the same format and mode with another configuration
-// (c14cell.Prelude): what an earlier provider of the process left behind must not matter.
+// Before the first cell side of a format and mode in a child process (hence in every replay) and before every eighth
+// cell the child runs a PRELUDE provider of the same format and mode with another configuration (c14cell.Prelude);
+// every other cell follows whatever cell the child ran before: what an earlier provider of the process left behind
+// must not matter.
 //
 // Every cell runs in a CHILD process (this binary with C14_CHILD=1, a pool of them, one line per request on
 // stdin/stdout): a fatal runtime error of the code under test (`fatal error: concurrent map read and map write`
@@ -44,6 +47,7 @@ import (
 	"bufio"
 	"encoding/json"
 	"fmt"
+	"hash/fnv"
 	"io"
 	"math/rand"
 	"os"
@@ -141,6 +145,7 @@ type cellSpec struct {
 	cf              bool
 	pad             int
 	big             [][2]int // (entry, size) of the big entries
+	srcS            string   // "uris" / "both": forced source kind, whatever the format and the number of entries
 }
 
 func (c cellSpec) line() string {
@@ -173,7 +178,9 @@ func (c cellSpec) line() string {
 	}
 	s := fmt.Sprintf("fmt=%s tags=%s cases=%s limit=%s passes=%s cap=%d junk=%d", c.format, ts, cs, ls, ps, cp,
 		c.layout%c14cell.Layouts(c.format))
-	if c.uris && c.format == c14cell.KURI && len(c.tags) > 0 { // an empty `uris:` list is no source at all
+	if c.srcS != "" {
+		s += " src=" + c.srcS
+	} else if c.uris && c.format == c14cell.KURI && len(c.tags) > 0 { // an empty `uris:` list is no source at all
 		s += " src=uris"
 	}
 	if c.yaml {
@@ -514,10 +521,7 @@ func gen(r *rand.Rand, tier string) []string {
 
 	// (J) sources larger than the decoders' buffers (bufio 4 KiB, bufio.Scanner 64 KiB): every entry's URI is padded
 	for fi, f := range formats {
-		pads := []int{700, 5000, 60000}
-		if f != c14cell.KURI {
-			pads = append(pads, 70000) // one line longer than bufio.MaxScanTokenSize (the uri decoder's limit)
-		}
+		pads := []int{700, 5000, 60000, 70000} // 70000: a line longer than bufio.MaxScanTokenSize (uri: /repo 66b1841)
 		for pi, pad := range pads {
 			for si, cases := range [][]string{nil, {"a"}, {"c", "zz"}} {
 				for bi, b := range [][2]int{{0, 2}, {5, 0}, {6, 3}} {
@@ -551,11 +555,29 @@ func gen(r *rand.Rand, tier string) []string {
 		}
 	}
 
+	// (L) NewProvider's source switch: inline uris with a decoder other than uri, a file AND uris, an empty uris list
+	// (no source at all, or — with a layout that starts with a blank line — an empty source): rejected / accepted alike
+	// with preload off and on
+	for fi, f := range formats {
+		for ti, tags := range [][]string{{"a", "b"}, {}} {
+			for si, src := range []string{"uris", "both"} {
+				for lay := 0; lay < 4; lay++ {
+					k := fi + ti + si + lay
+					if !thorough && f != c14cell.KURI && k%2 == 1 {
+						continue
+					}
+					add(cellSpec{format: f, tags: tags, cases: [][]string{nil, {"a"}}[k%2], limit: k % 3, passes: 1 + k%2, layout: lay,
+						yaml: k%2 == 0, srcS: src})
+				}
+			}
+		}
+	}
+
 	// (E) random cells
 	extra := 8000
 	maxN := 9
 	if thorough {
-		extra = 400000
+		extra = 300000
 		maxN = 40
 	}
 	// tags that are prefixes / case variants of each other, contain a space, or are absent: the filter must compare
@@ -731,7 +753,7 @@ func cellOf(input string, preload bool) c14cell.Cell {
 		Kind: kv["fmt"], Preload: preload, Limit: u64(kv["limit"]), Passes: u64(kv["passes"]),
 		Tags: listOf(kv["tags"]), Chosen: listOf(kv["cases"]), Cap: atoi(kv["cap"]), Layout: atoi(kv["junk"]),
 		Uris: kv["src"] == "uris", YAML: kv["via"] == "yaml", FH: parseFH(kv["fh"]), CH: parseCH(kv["ch"]),
-		Pre: kv["pre"] == "1", CloseFail: kv["cf"] == "1", Pad: atoi(kv["pad"]),
+		Pre: kv["pre"] == "1", CloseFail: kv["cf"] == "1", Pad: atoi(kv["pad"]), Both: kv["src"] == "both",
 	}
 	if kv["big"] != "" {
 		c.Big = map[int]int{}
@@ -762,6 +784,7 @@ const obsPrefix = "C14OBS "
 
 // childMain: one request per line (`s <input>` / `p <input>`), one answer per line.
 func childMain() {
+	preluded := map[string]bool{}
 	in := bufio.NewReaderSize(os.Stdin, 1<<20)
 	out := bufio.NewWriter(os.Stdout)
 	for {
@@ -769,7 +792,15 @@ func childMain() {
 		line = strings.TrimRight(line, "\r\n")
 		if len(line) > 2 {
 			c := cellOf(line[2:], line[0] == 'p')
-			c14cell.Prelude(c.Kind, c.Preload)
+			// the prelude provider: before the first cell of this format and mode in this process (so always in a
+			// replay, which starts a fresh child) and before every eighth cell (by a hash of the input)
+			key := c.Kind + string(line[0])
+			h := fnv.New32a()
+			h.Write([]byte(line[2:]))
+			if !preluded[key] || h.Sum32()%8 == 0 {
+				preluded[key] = true
+				c14cell.Prelude(c.Kind, c.Preload)
+			}
 			o := runCell(c)
 			b, _ := json.Marshal(o)
 			out.WriteString(obsPrefix)
@@ -1032,7 +1063,7 @@ func main() {
 		Gen:     gen,
 		Run:     run,
 		Class:   class,
-		Workers: 24,
+		Workers: 32,
 		Timeout: 40 * time.Second,
 		Rule: "the same generated ammo source (uri file or inline uris, uripost, raw, http/json objects, http/json array; 3-4 layouts each: headers, blank lines, CRLF, " +
 			"missing final newline, pretty-printed / one-line JSON) through the real http provider with preload off and on, built by NewProvider or by the plugin registry from a config map: " +
@@ -1041,7 +1072,7 @@ func main() {
 			"header declarations of the source (uri/uripost: [K: v] lines before, between and after the entries, redeclared, other spelling, Host; http/json, raw: per entry) x `headers` option x filter x bounds x layouts; " +
 			"plus random files (tags from {a,b,c,ab,B,untagged,'a b'}), random chosencases subsets (incl. nothing-matching, duplicates), bounds and (a third) random header declarations; " +
 			"round 3: a failing Close of the ammo file (alone, with a cancellation in the middle, with nothing chosen), bounds up to 2^64-1, sources padded beyond the decoders' buffers (4 KiB, 64 KiB), one entry around the 1 MiB read chunk; " +
-			"the consumer treats every request like a gun (mutates it after looking at it); every cell side is preceded in its process by a prelude provider with another configuration; " +
+			"the consumer treats every request like a gun (mutates it after looking at it); every cell side follows other providers in its process (a prelude provider with another configuration at the start of a child and before every eighth cell); " +
 			"every cell runs in a child process (a fatal runtime error of the code under test is the observation run=fatal:<class>); class = format(source) / filter shape / bound shape [+headers]",
 	})
 }
